@@ -579,8 +579,10 @@ class Loader:
                 continue
             if bool(w):
                 raise self.exception_class(q, r.exc)("raised by contract %s:%s" % (q, r.label))
+        old = con.snapshot(c, a) if hasattr(con, "snapshot") else None
         res = con.result(c, a)
-        for cl in con.post(c, a, res):
+        posts = con.post(c, a, res) if old is None else con.post(c, a, res, old)
+        for cl in posts:
             ctx.assume(cl.cond)
         return res
 
